@@ -22,16 +22,8 @@ KINDS = {0: "all", 1: "turn", 2: "dyn"}
 
 
 def make_manager(script, randomize=False):
-    from abmarl.managers import AllStepManager, TurnBasedManager, DynamicOrderManager
-    kind = script[0]
-    if kind == 0:
-        sim = stubsim.ScriptSim(script)
-        return sim, AllStepManager(sim, randomize_action_input=randomize)
-    if kind == 1:
-        sim = stubsim.ScriptSim(script)
-        return sim, TurnBasedManager(sim)
-    sim = stubsim.DynScriptSim(script)
-    return sim, DynamicOrderManager(sim)
+    from . import mgrproxy
+    return mgrproxy.make_manager(script, randomize)      # incl. the late-joining last agent
 
 
 def enc_dict(d, f=int):
